@@ -2,6 +2,320 @@
 
 package main
 
-import "github.com/theparanoids/ysshra/internal/zzverif/ev"
+import (
+	"encoding/json"
+	"fmt"
+	"reflect"
+	"strings"
+	"unicode/utf8"
 
-func checkC05(c *ev.Ctx) { c.Cap("not implemented") }
+	"github.com/theparanoids/ysshra/internal/zzverif/ev"
+	"github.com/theparanoids/ysshra/keyid"
+)
+
+// c05Case: Kind "enc" carries a KeyID value; Kind "dec" carries a text.
+type c05Case struct {
+	Kind string
+	K    *keyid.KeyID `json:",omitempty"`
+	Text string       `json:",omitempty"`
+	TextHex string    `json:",omitempty"` // used when Text is not valid UTF-8
+	Note string       `json:",omitempty"`
+}
+
+var c05Required = []string{"prins", "transID", "reqUser", "reqIP", "reqHost", "isFirefighter", "isHWKey", "isHeadless", "isNonce", "touchPolicy", "ver"}
+
+// c05Consistent is the consistency rule of the statement.
+func c05Consistent(ff, hw, hl, nc bool, touch int) bool {
+	if hl && (hw || ff || touch != 1) {
+		return false
+	}
+	if nc && (ff || hl || touch != 1) {
+		return false
+	}
+	return true
+}
+
+func c05Enc(c *ev.Ctx, k keyid.KeyID) {
+	c.Eval()
+	cas := c05Case{Kind: "enc", K: &k}
+	var text string
+	var err error
+	var back *keyid.KeyID
+	var berr error
+	if p := ev.Guard(func() {
+		kk := k
+		text, err = kk.Marshal()
+		if err == nil {
+			back, berr = keyid.Unmarshal(text)
+		}
+	}); p != "" {
+		c.Violation("C05:panic:"+ev.PanicSite(p), p, cas)
+		return
+	}
+	want := k.Version == 1 && c05Consistent(k.IsFirefighter, k.IsHWKey, k.IsHeadless, k.IsNonce, int(k.TouchPolicy))
+	if (err == nil) != want {
+		why := "inconsistent"
+		if k.Version != 1 {
+			why = "version"
+		}
+		c.Outcome("enc-mismatch")
+		c.Violation(fmt.Sprintf("C05:marshal:accept=%v:want=%v:%s", err == nil, want, why),
+			fmt.Sprintf("Marshal err=%v but statement says success=%v for %s", err, want, ev.JSON(k)), cas)
+		return
+	}
+	if err != nil {
+		c.Outcome("enc-refused")
+		return
+	}
+	c.Outcome("enc-ok")
+	c.Nontrivial("enc:" + text)
+	if berr != nil {
+		c.Violation("C05:roundtrip:decode-fails", fmt.Sprintf("Unmarshal(Marshal(k)) failed: %v; text=%s", berr, text), cas)
+		return
+	}
+	if !reflect.DeepEqual(*back, k) {
+		c.Violation("C05:roundtrip:unequal", fmt.Sprintf("Unmarshal(Marshal(k)) = %s, want %s", ev.JSON(back), ev.JSON(k)), cas)
+	}
+}
+
+func c05Dec(c *ev.Ctx, text, note string) {
+	c.Eval()
+	cas := c05Case{Kind: "dec", Text: text, Note: note}
+	if !utf8.ValidString(text) {
+		cas.Text, cas.TextHex = "", fmt.Sprintf("%x", text)
+	}
+	var k *keyid.KeyID
+	var err error
+	if p := ev.Guard(func() { k, err = keyid.Unmarshal(text) }); p != "" {
+		c.Violation("C05:panic:"+ev.PanicSite(p), p, cas)
+		return
+	}
+	if err != nil {
+		if k != nil {
+			c.Violation("C05:decode:value-with-error", "Unmarshal returned both a value and an error", cas)
+		}
+		c.Outcome("dec-refused")
+		return
+	}
+	c.Outcome("dec-accepted")
+	c.Nontrivial("dec:" + text)
+	if k == nil {
+		c.Violation("C05:decode:nil-nil", "Unmarshal returned (nil, nil)", cas)
+		return
+	}
+	if k.Version != 1 {
+		c.Violation("C05:decode:unsupported-version", fmt.Sprintf("accepted version %d", k.Version), cas)
+	}
+	var m map[string]json.RawMessage
+	if e := json.Unmarshal([]byte(text), &m); e != nil || m == nil {
+		c.Violation("C05:decode:not-an-object", fmt.Sprintf("accepted text is not a JSON object (%v)", e), cas)
+		return
+	}
+	for _, r := range c05Required {
+		if _, ok := m[r]; !ok {
+			c.Violation("C05:decode:missing:"+r, fmt.Sprintf("accepted text lacks required field %q: %s", r, text), cas)
+		}
+	}
+	if !c05Consistent(k.IsFirefighter, k.IsHWKey, k.IsHeadless, k.IsNonce, int(k.TouchPolicy)) {
+		c.Violation("C05:decode:inconsistent", fmt.Sprintf("accepted inconsistent KeyID %s", ev.JSON(k)), cas)
+	}
+}
+
+type kv struct {
+	k string
+	v string // raw JSON
+}
+
+func c05Pairs(k keyid.KeyID) []kv {
+	j := func(v any) string { b, _ := json.Marshal(v); return string(b) }
+	return []kv{{"prins", j(k.Principals)}, {"transID", j(k.TransID)}, {"reqUser", j(k.ReqUser)}, {"reqIP", j(k.ReqIP)}, {"reqHost", j(k.ReqHost)},
+		{"isFirefighter", j(k.IsFirefighter)}, {"isHWKey", j(k.IsHWKey)}, {"isHeadless", j(k.IsHeadless)}, {"isNonce", j(k.IsNonce)},
+		{"usage", j(int(k.Usage))}, {"touchPolicy", j(int(k.TouchPolicy))}, {"ver", j(k.Version)}}
+}
+
+func c05Compose(p []kv) string {
+	var sb strings.Builder
+	sb.WriteByte('{')
+	for i, e := range p {
+		if i > 0 {
+			sb.WriteByte(',')
+		}
+		kb, _ := json.Marshal(e.k)
+		sb.Write(kb)
+		sb.WriteByte(':')
+		sb.WriteString(e.v)
+	}
+	sb.WriteByte('}')
+	return sb.String()
+}
+
+func checkC05(c *ev.Ctx) {
+	c.Rule("encoder: complete product 2^4 flags x touch{-1..4} x usage{0,1,2} x ver{0,1,2,65535} x 6 principal lists x jointly varied 5-value string alphabet; decoder: single-field surgeries (delete, 3 case renames, duplicate before/after, retype to null/number/string/array/object/bool-flip) on every field of a generating set of encoder outputs, all flag/touch/ver combinations as texts, a JSON value catalogue, byte-substitution neighbourhood of an encoder output, and ALL strings up to length 5 (thorough 6) over a 13-symbol structural alphabet. non-trivial = Marshal succeeded (round-trip checked) or Unmarshal accepted (oracle checked); distinct by text")
+	c.Assume("valid UTF-8 strings only (encoding/json replaces invalid UTF-8, which the property excludes)", "the independent decode uses encoding/json into map[string]RawMessage")
+	if c.ReplayCase != nil {
+		var k c05Case
+		json.Unmarshal(c.ReplayCase, &k)
+		if k.Kind == "enc" && k.K != nil {
+			c05Enc(c, *k.K)
+		} else {
+			t := k.Text
+			if k.TextHex != "" {
+				fmt.Sscanf(k.TextHex, "%x", &t)
+			}
+			c05Dec(c, t, k.Note)
+		}
+		return
+	}
+	bools := []bool{false, true}
+	prinLists := [][]string{nil, {}, {"a"}, {"a", "b"}, {""}, {"ü\"\\"}}
+	strs := []string{"", "a", "ü\"\\{}[]:,", "<>& ", strings.Repeat("x", 200)}
+	var generating []keyid.KeyID
+	n := 0
+	for _, ff := range bools {
+		for _, hw := range bools {
+			for _, hl := range bools {
+				for _, nc := range bools {
+					for _, touch := range []int{1, 0, 2, 3, -1, 4} {
+						for _, usage := range []int{0, 1, 2} {
+							for _, ver := range []uint16{1, 0, 2, 65535} {
+								for _, pl := range prinLists {
+									for si, s := range strs {
+										k := keyid.KeyID{Principals: pl, TransID: s, ReqUser: strs[(si+1)%len(strs)], ReqIP: strs[(si+2)%len(strs)], ReqHost: strs[(si+3)%len(strs)],
+											IsFirefighter: ff, IsHWKey: hw, IsHeadless: hl, IsNonce: nc, Usage: keyid.Usage(usage), TouchPolicy: keyid.TouchPolicy(touch), Version: ver}
+										c05Enc(c, k)
+										n++
+										if n%20011 == 0 {
+											c.Sample(c05Case{Kind: "enc", K: &k})
+										}
+										if ver == 1 && usage == 0 && si == 1 && len(pl) == 1 && pl[0] == "a" && c05Consistent(ff, hw, hl, nc, touch) && (touch == 1 || touch == 3) {
+											generating = append(generating, k)
+										}
+									}
+								}
+							}
+						}
+					}
+				}
+			}
+		}
+	}
+	c.Set("encoder_values", n)
+	c.Set("generating_set", len(generating))
+
+	// decoder: all flag/touch/version combinations as texts (consistent and inconsistent)
+	for _, ff := range bools {
+		for _, hw := range bools {
+			for _, hl := range bools {
+				for _, nc := range bools {
+					for _, touch := range []int{1, 0, 2, 3, -1, 4} {
+						for _, ver := range []int{1, 0, 2, 65535, 65536, -1} {
+							p := c05Pairs(keyid.KeyID{Principals: []string{"a"}, TransID: "t", IsFirefighter: ff, IsHWKey: hw, IsHeadless: hl, IsNonce: nc, TouchPolicy: keyid.TouchPolicy(touch)})
+							p[11].v = fmt.Sprint(ver)
+							c05Dec(c, c05Compose(p), "flag product")
+						}
+					}
+				}
+			}
+		}
+	}
+	// surgeries
+	retypes := []string{"null", "0", "1", `"x"`, `"1"`, "[]", "[1]", "{}", "true", "false", "1.0", "1e0", "1.5", "65537", `["a",1]`}
+	surg := 0
+	for gi, g := range generating {
+		base := c05Pairs(g)
+		if enc, _ := (&g).Marshal(); enc != c05Compose(base) {
+			c.Violation("C05:harness:compose", "harness composition differs from encoder output: "+enc+" vs "+c05Compose(base), nil)
+			return
+		}
+		for i := range base {
+			mk := func(f func(p []kv) []kv, note string) {
+				p := f(append([]kv{}, base...))
+				t := c05Compose(p)
+				c05Dec(c, t, note)
+				surg++
+				if gi == 0 && i == 9 && c.SampleN() < 6 {
+					c.Sample(c05Case{Kind: "dec", Text: t, Note: note})
+				}
+			}
+			key := base[i].k
+			mk(func(p []kv) []kv { return append(p[:i], p[i+1:]...) }, "delete "+key)
+			for _, nk := range []string{strings.ToUpper(key), strings.ToLower(key), strings.ToUpper(key[:1]) + key[1:], key + " ", " " + key} {
+				if nk == key {
+					continue
+				}
+				nk := nk
+				mk(func(p []kv) []kv { p[i].k = nk; return p }, "rename "+key+"->"+nk)
+				// renamed copy in addition to the original with a conflicting value (case-insensitive struct decoding)
+				for _, rv := range []string{"true", "false", "2", "1", "0"} {
+					rv := rv
+					mk(func(p []kv) []kv { return append(p, kv{nk, rv}) }, "append case-variant "+nk+"="+rv)
+				}
+			}
+			for _, rv := range retypes {
+				rv := rv
+				mk(func(p []kv) []kv { p[i].v = rv; return p }, "retype "+key+"="+rv)
+				mk(func(p []kv) []kv { return append([]kv{{key, rv}}, p...) }, "duplicate-before "+key+"="+rv)
+				mk(func(p []kv) []kv { return append(p, kv{key, rv}) }, "duplicate-after "+key+"="+rv)
+			}
+		}
+	}
+	c.Set("surgeries", surg)
+	// catalogue of JSON values
+	for _, t := range []string{"", "null", "true", "false", "0", "1", `""`, `"{}"`, "[]", "[{}]", "[null]", "{}", `{"ver":1}`, `{"ver":null}`, `{"a":{"b":{"c":[1,2,{"d":null}]}}}`,
+		"1e400", "-0", "123456789012345678901234567890", `{"ver":1.0}`, `{"ver":1e0}`, `{"ver":"1"}`, "{\"ver\":1}\x00", " {} ", "{}{}", `{"ver":1}}`, "\xef\xbb\xbf{}",
+		strings.Repeat("[", 10000), strings.Repeat(`{"a":`, 5000)} {
+		c05Dec(c, t, "catalogue")
+	}
+	// byte-substitution neighbourhood of one encoder output
+	alpha := []byte("{}[]\":,\\1nt \xff")
+	if len(generating) > 0 {
+		base, _ := (&generating[0]).Marshal()
+		for pos := 0; pos < len(base); pos++ {
+			for _, b := range alpha {
+				t := []byte(base)
+				t[pos] = b
+				c05Dec(c, string(t), "substitute")
+			}
+			c05Dec(c, base[:pos], "truncate")
+			c05Dec(c, base[:pos]+base[pos+1:], "drop byte")
+		}
+	}
+	// all strings up to length L over the structural alphabet
+	L := 5
+	if c.Thorough() {
+		L = 6
+	}
+	total := 0
+	for l := 1; l <= L; l++ {
+		cnt := 1
+		for i := 0; i < l; i++ {
+			cnt *= len(alpha)
+		}
+		total += cnt
+		ll := l
+		c.ParMap(len(alpha), func(first int) {
+			buf := make([]byte, ll)
+			buf[0] = alpha[first]
+			idx := make([]int, ll)
+			for {
+				for i := 1; i < ll; i++ {
+					buf[i] = alpha[idx[i]]
+				}
+				c05Dec(c, string(buf), "short string")
+				i := ll - 1
+				for ; i >= 1; i-- {
+					idx[i]++
+					if idx[i] < len(alpha) {
+						break
+					}
+					idx[i] = 0
+				}
+				if i < 1 {
+					break
+				}
+			}
+		})
+	}
+	c.Set("short_strings", total)
+	c.Set("short_string_max_len", L)
+}
